@@ -7,3 +7,7 @@ PROPS_ENTRY = {'models': ['Model/Layout.v'],
  'trusted_extra': ['drop order of VirtQueueLayout fields is transcribed (tied by the observed dealloc order)']}
 
 SPEC_ENTRY = None  # Properties/C06.v is written by hand
+
+# Properties/C06.v (hand-written) also pins, from Proofs/LayoutMonProofs.v, the meaning / completeness theorems of the generic monitors
+# decided inline in Extract/Dispatch.v step_alloc: C06_monitor_ledger_meaning (kinds 1, 2), C06_monitor_612_meaning / _decodes /
+# _holds_of_model, C06_monitor_613_meaning / _decodes / _holds_of_model.
